@@ -160,3 +160,6 @@ Definition pipe_case (R : registry) (ws : list N)
 (* hypotheses of C05_roundtrip, evaluated on an instance *)
 Definition hyps (R : registry) (ws : list N) (v : val) : bool :=
   has_type (isspace_of ws) R v TAny && keys_not_markers v && no_other v.
+
+(* xlsx cell normalisation: openpyxl value kind, implementation's _get_cell_value result *)
+Definition cell_case (c : cell * val) : bool := val_eqb (get_cell_value (fst c)) (snd c).
